@@ -34,11 +34,11 @@ Definition at_check (ds : list Z) : bool :=     (* ds = the 8 digits after "U" *
 Definition valid_AT (c : bytes) : bool :=
   nonempty c (match_classes ((fun b => beq b 85) :: rep 8 is_digit) c && at_check (digs (skipn 1 c))).
 
-(* ---------------- BE: ^0?\d{9}$, commercialCheck ---------------- *)
+(* ---------------- BE: ^[01]?\d{9}$, commercialCheck ---------------- *)
 Definition be_format (c : bytes) : bool :=
-  digits_n 9 c || (digits_n 10 c && beq (nthb 0 c) 48).
+  digits_n 9 c || (digits_n 10 c && (beq (nthb 0 c) 48 || beq (nthb 0 c) 49)).
 Definition be_check (v : bytes) : bool :=       (* v: 10 digits *)
-  if dv (nthb 1 v) =? 0 then false
+  if beq (nthb 0 v) 48 && beq (nthb 1 v) 48 then false     (* val[0] == '0' && val[1] == '0' *)
   else
     let num := num_of (sub 0 8 v) in
     let chk := 97 - num mod 97 in
